@@ -58,6 +58,8 @@ def mk_inf(case, **over):
               resample=lambda o, rng: [float(x) for x in np.asarray(o) * (1 + 0.01 * rng.standard_normal(len(o)))])
     if case.get('x0') is not None:
         kw['x0'] = dict(zip(bounds.keys(), case['x0']))
+        if case.get('x0_reversed'):       # same start values, keys written in the opposite order to the bounds
+            kw['x0'] = dict(reversed(list(kw['x0'].items())))
     kw.update(over)
     return pg.Inference(**kw), loss, obs, coal
 
@@ -75,6 +77,7 @@ def do_case(case):
     inf.run()
     r['calls'] = list(CALLS)
     r['main'] = summary(inf)
+    r['main']['params'] = {k: r['main']['params'][k] for k in inf.bounds}      # report in the order of the bounds
     r['bounds'] = [list(b) for b in inf.bounds.values()]
     r['loss_at_params'] = float(loss(coal(**inf.params_inferred), obs))
     d = inf.dist_inferred.demography.get_epoch(0).pop_sizes['pop_0']
